@@ -6,7 +6,7 @@ VERIF = os.path.dirname(HERE)
 CLAIMS = {
  'C01': ('3/C01', 'op-template extraction + abstract interpretation (gradient linearity, must-dependence, axis typestate) + def-use rules over the 26 tensor ops',
          'Decides the structural necessary conditions of the VJP property for all 26 tensor-op wrappers and their backward kernels (wiring, operand/result binding, accumulation, linearity of every returned gradient in g, un-broadcast targets, inverse permutations, accumulating scatters, reduced-axis re-insertion, dependence on saved values, axis normalisation); it does not decide the numerical value of any Jacobian.'),
- 'C02': ('3/C02', 'op-template extraction + abstract interpretation (linearity, must-dependence) + truth tables over the 22 nn ops, kernels, layers and losses',
+ 'C02': ('3/C02 and 8.2', 'op-template extraction + abstract interpretation (linearity, must-dependence) + term differentiation of smooth kernels + partial evaluation of the batch-norm kernels under all mode valuations',
          'Same structural part as C01 for the 22 nn ops plus operand coverage (every child receives a gradient), axis-genericity of softmax kernels, forward/backward agreement of the batch-norm mode predicate, pooling geometry/permutation pairing and layer->op parameter plumbing; closed-form derivative values are not decided.'),
  'C03': ('3/C03', 'CFG dominance + traversal idiom recognition + template rules over all 48 ops',
          'Decides the code-shape part of the chain rule on DAGs: topological (post-order) traversal with visited test-and-mark swept in reverse, one grad_fn call site executed once per node, identity keyed nodes, += accumulation per operand position in all 48 ops; gradient values are not decided.'),
@@ -14,11 +14,11 @@ CLAIMS = {
          'Decides the gradient-buffer discipline over all histories: writers of Tensor._grad package-wide, truth tables of the zero-init guard (leaf: create iff absent; non-leaf: always reset), root seed (accumulate iff leaf with buffer; owned dtype-converted copy) and release predicate, reset paths; gradient values are not decided.'),
  'C05': ('3/C05', 'call-binding against a frozen NumPy signature table + axis/dim typestate + CFG dominance of validation guards + operator table',
          'Decides argument plumbing of forward kernels and wrappers, dim normalisation, validation-before-kernel dominance, the operator/reflected-operator table, iteration protocol and constructor plumbing; NumPy value semantics are not decided.'),
- 'C06': ('3/C06', 'geometry typestate + polynomial normal form of output-size formulas + enum exhaustiveness + call binding of layers',
+ 'C06': ('3/C06 and 8.2', 'partial evaluation with path enumeration over a shape-level abstract domain (symbolic arrays, polynomial normal form) for conv_tools and the Loss reduction dispatch + geometry typestate + call binding of layers',
          'Decides int-or-tuple geometry normalisation, the output-size formula at all sites, empty-output rejection, padding constants, batch-norm statistic choice and variance forms, exhaustive string-mode dispatch and layer->functional plumbing; window layout and value equality with PyTorch are not decided.'),
  'C07': ('3/C07', 'template rules + CFG dominance of guards + typestate of the context managers + truth tables',
          'Decides requires_grad propagation/attachment for all 48 ops, the constructor flag formula, the five flag guards, save-on-enter/restore-on-exit stack discipline of no_grad/retain_grads, no-buffer-without-requires_grad and the release predicate.'),
- 'C08': ('3/C08', 'may-alias abstract interpretation + control-dependence facts + forward substitution to a polynomial normal form under all flag valuations',
+ 'C08': ('3/C08 and 8.2', 'may-alias abstract interpretation + control-dependence facts + partial evaluation of step() to polynomial normal forms under all flag valuations',
          'Decides ownership of optimizer state, in-place update, frozen-parameter guards, no_grad region, step counter, and equality of the SGD/Adam/AdamW updates with the published rules for every valuation of the configuration predicates; floating-point trajectories are not decided.'),
  'C09': ('3/C09', 'abstract interpretation over a sign/magnitude (overflow) domain of the 14 stability-critical kernels',
          'Decides absence of Inf/NaN hazards (exp of a possibly positive unbounded argument reaching a product with a possibly-zero value, a difference/quotient of unbounded values, a log or a result) and of epsilon-clipping of underflowing probabilities; accuracy to single precision is not decided.'),
@@ -26,23 +26,23 @@ CLAIMS = {
          'Decides that NumPy-scalar results keep their dtype in the constructor, that every forward kernel result follows the operand dtype, and that gradient buffers take dtype/shape from the tensor (zeros_like, += only, converted and shape-checked seed); float32/float64 numerical agreement is not decided.'),
  'C11': ('3/C11', 'may-alias abstract interpretation of all kernels + who-may-write scan + positive-control fixture',
          'Decides that no kernel has an in-place effect on storage that may alias a parameter, who may write Tensor.data package-wide, purity of the 48 wrappers/closures, fresh storage of clone/detach and of every gradient buffer, absence of random/clock sources in ops.'),
- 'C12': ('3/C12', 'effect analysis of __setattr__ branches + who-may-write + CFG dominance + definite assignment',
+ 'C12': ('3/C12 and 8.2', 'registry effects of __setattr__ on partially evaluated paths + who-may-write + CFG dominance + definite assignment',
          'Decides exclusive/replacing registration, registry ordering and writers, identity de-duplication of parameters(), num_params counters, train/eval recursion, parameter loops, base-class discipline of all Module subclasses and Sequential order/composition.'),
- 'C13': ('3/C13', 'path-condition truth tables (8 valuations) + polynomial normal form of the running-statistics update + def-use pattern rules',
+ 'C13': ('3/C13 and 8.2', 'partial evaluation with path enumeration: layer, functional wrapper and kernel composed under 16 mode valuations, output / stored terms compared in polynomial normal form',
          'Decides Dropout eval identity / single draw / mask orientation / 1/(1-p) scale / product op, BatchNorm statistic choice and update predicate composed over layer, wrapper and kernel, single counter increment, documented moving-average forms; distributions and numerical statistics are not decided.'),
  'C14': ('3/C14', 'composition-tree extraction over the call graph and tree equality for the by-construction identities',
          'Decides the identities that hold by construction in this code base (one side implemented through the other); natively re-implemented sides are reported as undecided, value equality is not decided.'),
- 'C15': ('3/C15', 'forward substitution to a polynomial normal form with rational exponents + call-binding role check + effect scan',
+ 'C15': ('3/C15 and 8.2', 'partial evaluation of every initialiser to polynomial normal forms with rational exponents (sampler arguments by role) + effect scan',
          'Decides that the documented scale formulas reach the sampler parameters in the right role (std vs variance), fan computation, gain table, mode selection and object effects of every filler; sample statistics are not decided.'),
- 'C16': ('3/C16', 'polynomial normal form of size/slice arithmetic + geometry typestate + gather/scatter pairing rules',
-         'Decides the shared-structure clauses whose violation makes the im2col/col2im variants disagree or breaks adjointness (window counts, geometry normalisation, accumulating scatter, gather/scatter index pairing, pad/crop, layout permutations); value agreement of the strided extractor is not decided.'),
+ 'C16': ('3/C16 and 8.2', 'partial evaluation with path enumeration over a shape-level abstract domain (symbolic arrays: layout ops, shapes, strides, evaluated slices) + linearity-domain scatter rule',
+         'Decides the shared-structure clauses whose violation makes the im2col/col2im variants disagree or breaks adjointness (window counts, geometry normalisation, accumulating scatter, gather/scatter index pairing, pad/crop, layout permutations); the addressing term (shape and byte strides) of the strided extractor is compared with the loop variants; numerical agreement of the results is not decided.'),
  'C17': ('3/C17', 'call-graph cycle detection + traversal idiom recognition + escape analysis of closures',
          'Decides that backward has no graph-depth recursion, invokes each op once from one call site with O(1) work per edge, that untracked results store no children and closures escape only through the guarded attach, and that intermediates are released.'),
- 'C18': ('3/C18', 'def-use pattern rules + polynomial normal form of slice bounds + control-dependence facts',
+ 'C18': ('3/C18 and 8.2', 'partial evaluation with path enumeration over symbolic index sequences (slice trees, gathers) + polynomial normal form of sizes and bounds',
          'Decides complementary slice partitions with floor-rule sizes, single guarded shuffle, X/y pairing, aligned batch slices and iterator protocol, None-guarded transform and the one-hot index rule.'),
  'C19': ('3/C19', 'who-may-call scan over resolved callees + local inference of set-valued names + taint of id()/hash()',
          'Decides the source discipline the repository controls: manual_seed seeds both global generators, every draw uses them, no iteration over hash-ordered sets, sweep order from a list, id()/hash() only for membership; NumPy/BLAS cross-process identity is not decided.'),
- 'C20': ('3/C20', 'CFG dominance and region checks + call-site enumeration + definite-assignment dataflow',
+ 'C20': ('3/C20 and 8.2', 'CFG dominance and region checks + call-site enumeration + definite-assignment dataflow + partial evaluation of the Evaluator per mode / prefix / callback valuation',
          'Decides the per-batch zero_grad -> backward -> step ordering, one training pass per epoch in train mode, eval-mode/no_grad regions without update calls, history bookkeeping, exhaustive evaluator dispatch and definite assignment.'),
 }
 NOTE = 'Static necessary-condition check (level "other"): every rule instance is enumerated from /repo\'s current source on each run; trusted base = CPython ast parser, the frozen NumPy-role tables and reference formulas in /verif/sa, and the rule definitions in DESIGN.md. It decides the structural part named in level_claimed.text, not the value-level behaviour.'
@@ -62,9 +62,9 @@ def main():
              hooks=dict(guard='PGMESA_SYNAPGRAD_VERIF', enable='none needed: the checks are static (they parse /repo\'s working tree; nothing in /repo is instrumented, imported or executed)',
                         baseline_off_cmd='cd /repo && /venv/bin/python -m pytest -ra -q -p no:cacheprovider --timeout=900 --continue-on-collection-errors', source_commits=[], add_only=True),
              engines=[dict(name='sa', path='/verif/sa', serves_properties=implemented,
-                           kind_free_text='repo-specific static analyser: ast program model, statement CFG (networkx), 48-op template catalogue, small abstract interpreter with linearity / must-dependence / alias / dtype / overflow domains, polynomial normal form, truth-table comparison of path conditions, definite assignment; thorough tier adds a mutant self-test on scratch copies')],
+                           kind_free_text='repo-specific static analyser: ast program model, statement CFG (networkx), 48-op template catalogue, source normalisation, small abstract interpreter with linearity / must-dependence / alias / dtype / overflow domains, polynomial normal form, term differentiation, partial evaluator with path enumeration over term / shape / index-sequence domains, truth-table comparison of path conditions, definite assignment; thorough tier adds a 252-variant mutant / twin self-test on scratch copies')],
              checks=checks,
-             notes='All checks are level "other": sound static checks of structural necessary conditions (see DESIGN.md section 4 for what is and is not decided per property). /repo carries only unguarded "fix:" commits (listed in known_findings.json), no hooks.',
+             notes='All checks are level "other": sound static checks of structural necessary conditions (see DESIGN.md sections 4 and 8.6 for what is and is not decided per property). /repo carries only unguarded "fix:" commits (listed in known_findings.json), no hooks.',
              not_applicable=[dict(property_id=p, reason='check module not implemented yet in this round (planned static rules: DESIGN.md section %s)' % CLAIMS[p][0]) for p in pending])
     json.dump(m, open(os.path.join(VERIF, 'MANIFEST.json'), 'w'), indent=1)
     print('MANIFEST: %d checks, %d pending' % (len(checks), len(pending)))
